@@ -997,6 +997,16 @@ func (p *H265Payloader) Payload(mtu uint16, payload []byte) [][]byte { //nolint:
 			// then, fragment the nalu
 			maxFUPayloadSize := int(mtu) - fuPacketHeaderSize
 
+			if maxFUPayloadSize > 0 && len(nalu) > h265NaluHeaderSize && len(nalu)-h265NaluHeaderSize <= maxFUPayloadSize {
+				// the whole unit would go into one FU, which cannot carry both S and E;
+				// a unit that small always fits a single NAL unit packet, so send it as one
+				flushBufferedNals()
+				bufferedNALUs = append(bufferedNALUs, nalu)
+				flushBufferedNals()
+
+				return
+			}
+
 			naluHeader := newH265NALUHeader(nalu[0], nalu[1])
 
 			// the nalu header is omitted from the fragmentation packet payload
